@@ -258,6 +258,13 @@ func Classify(q *Query, data []*triple.Triple) string {
 		if spec(c) == 3 && i > 0 {
 			add("fully-specified-clause-not-first")
 		}
+		if c.O.IDAlias != "" {
+			for _, n := range []string{c.S.Name, c.S.As, c.S.IDAlias, c.S.TypeAlias, c.P.Name, c.P.As, c.P.IDAlias, c.P.AtAlias, c.O.Name, c.O.As, c.O.TypeAlias, c.O.AtAlias} {
+				if n == c.O.IDAlias {
+					add("object-ID-alias-name-reused-inside-its-clause")
+				}
+			}
+		}
 		if spec(c) < 3 && len(c.Bindings()) == 0 {
 			add("clause-without-bindings")
 		}
